@@ -569,6 +569,8 @@ def job_keys(tier):
     for n in (1, 2):
         for nf in (7, 8, 9):
             keys[(n, nf, 100)] = 2
+    keys[(12, 10, 100)] = 1
+    keys[(12, 8, 100)] = 1
     return keys
 
 
@@ -856,7 +858,8 @@ def trace_sig(line, l, why):
 def trace_validate(ctx, pools, n_traces, length, tags, only=None):
     rnd = random.Random(ctx.seed + 77)
     keys = [(2, 10, 100)] * 5 + [(3, 10, 100)] * 2 + [(1, 10, 100), (2, 10, 1), (2, 7, 100), (2, 8, 100),
-                                                    (2, 9, 100), (1, 9, 100), (2, 8, 1), (1, 7, 100)]
+                                                    (2, 9, 100), (1, 9, 100), (2, 8, 1), (1, 7, 100),
+                                                    (12, 10, 100), (12, 8, 100)]     # cpu10 sorts before cpu2 as text
     jobs = only or [{"key": list(rnd.choice(keys)), "seed": ctx.seed * 100003 + i, "n": length}
                     for i in range(n_traces)]
     res = pools.map(rand_trace, jobs)
